@@ -572,6 +572,7 @@ let do_rhist id ins outs =
 
 (* ---- engine resolver, mode fault ----
    fault <id> <tr> <kind> <qhex> <outcome> <uptok> => <nrep> <repenc> <lat_ms> <timeout_ms> *)
+let fault_tcp = ref false
 let do_fault id ins outs =
   match ins, outs with
   | [tr; kind; qh; outcome; uptok], [nrep; rep; lat; tmo] ->
@@ -586,13 +587,17 @@ let do_fault id ins outs =
         let (_, r) = doh_resolve cfg0 rstate0 Z0 rq0 [] (DBody (up, None)) in
         if r.rs_err then UpErr else Up r.rs_buf
       | _ -> UpErr) in
-    let model = res_str enc_out (handle UDP q o) in
-    let tag = tr ^ "/" ^ kind in
+    let model = res_str enc_out (handle (if !fault_tcp then TCP else UDP) q o) in
+    let tag = tr ^ "/" ^ kind ^ (if !fault_tcp then "/tcp-reused" else "") in
     let late = int_of_string lat > int_of_string tmo + 300 in
-    if nrep <> "1" || late then verdict "fault" id "spec:C03" tag (Printf.sprintf "replies=%s latency=%sms timeout=%sms" nrep lat tmo)
-    else if rep = model then verdict "fault" id "ok" tag ""
-    else verdict "fault" id "diff" tag (Printf.sprintf "impl=%s model=%s" rep model)
-  | _ -> verdict "fault" id "diff" "malformed-line" ""
+    if nrep <> "1" || late then verdict (if !fault_tcp then "faulttcp" else "fault") id "spec:C03" tag (Printf.sprintf "replies=%s latency=%sms timeout=%sms" nrep lat tmo)
+    else if rep = model then verdict (if !fault_tcp then "faulttcp" else "fault") id "ok" tag ""
+    else if kind = "ok" && outcome = "up" then
+      (* the upstream behaves: the reply is determined (its message under this query's ID) *)
+      verdict (if !fault_tcp then "faulttcp" else "fault") id "spec:C03" tag
+        (Printf.sprintf "the upstream answered normally but the client got %s instead of %s (latency %sms)" rep model lat)
+    else verdict (if !fault_tcp then "faulttcp" else "fault") id "diff" tag (Printf.sprintf "impl=%s model=%s" rep model)
+  | _ -> verdict (if !fault_tcp then "faulttcp" else "fault") id "diff" "malformed-line" ""
 
 (* ---- engine manager ----
    mgr <id> <threshold/init> <provs> <health> <ops> => <log> <snapshots> *)
@@ -729,7 +734,7 @@ let do_storm id ins outs =
     let tag = if two then tag ^ "/2addr" else tag in
     let zi s = z_of_int (int_of_string s) in
     if (if two then c04_ok_multi (zi k) (z_of_int 2) (zi md) (zi ba) else c04_ok (zi k) (zi md) (zi ba)) then verdict "storm" id "ok" tag ""
-    else verdict "storm" id "spec:C04" tag (Printf.sprintf "capacity=%s max inside resolver during storm=%s, inside together afterwards=%s (events %s)" k md ba evs)
+    else verdict "storm" id "spec:C04,C02" tag (Printf.sprintf "capacity=%s max inside resolver during storm=%s, inside together afterwards=%s (events %s)" k md ba evs)
   | _ -> verdict "storm" id "diff" "malformed-line" ""
 
 (* ---- engine router (C20) ----
@@ -1084,7 +1089,8 @@ let () =
       | "hosts" :: id :: rest -> let (i, o) = split_arrow rest in do_hosts id i o
       | "clist" :: id :: rest -> let (i, o) = split_arrow rest in do_clist id i o
       | "rhist" :: id :: rest -> let (i, o) = split_arrow rest in do_rhist id i o
-      | "fault" :: id :: rest -> let (i, o) = split_arrow rest in do_fault id i o
+      | "fault" :: id :: rest -> let (i, o) = split_arrow rest in fault_tcp := false; do_fault id i o
+      | "faulttcp" :: id :: rest -> let (i, o) = split_arrow rest in fault_tcp := true; do_fault id i o; fault_tcp := false
       | "sid" :: id :: rest -> let (i, o) = split_arrow rest in do_sid id i o
       | "e2e" :: id :: rest -> let (i, o) = split_arrow rest in do_e2e id i o
       | "cis" :: id :: rest -> let (i, o) = split_arrow rest in do_cis id i o
